@@ -5,11 +5,12 @@ EXTENDS AES, Json
 VARIABLES op, fam
 Ops == <<"sb", "isb", "sr", "isr", "mc", "imc", "ark">>
 Mult == <<0, 17, 101>>
-Init == op \in 1..7 /\ fam \in 1..3
+Init == op \in 1..7 /\ fam \in 1..4
 Next == UNCHANGED <<op, fam>>
 Spec == Init /\ [][Next]_<<op, fam>>
-StateOf(v, f) == [k \in 1..16 |-> (v + Mult[f] * k) % 256]
-KeyOf(v) == [k \in 1..16 |-> (3 * v + 29 * k + 7) % 256]
+\* family 4: every byte below 128 (states and keys that a signed 8-bit array can carry)
+StateOf(v, f) == IF f = 4 THEN [k \in 1..16 |-> (v + 5 * k) % 128] ELSE [k \in 1..16 |-> (v + Mult[f] * k) % 256]
+KeyOf(v) == [k \in 1..16 |-> IF fam = 4 THEN (3 * v + 29 * k + 7) % 128 ELSE (3 * v + 29 * k + 7) % 256]
 \* AddRoundKey twice with the same key is the identity (model sanity)
 ArkInvolution == \A v \in {0, 1, 77, 255} : AddRoundKey(AddRoundKey(StateOf(v, fam), KeyOf(v)), KeyOf(v)) = StateOf(v, fam)
 Emit == PrintT(<<"EMIT", ToJson([op |-> Ops[op], fam |-> fam, out |-> [v \in 1..256 |-> Apply(Ops[op], StateOf(v - 1, fam), KeyOf(v - 1))]])>>)
